@@ -206,6 +206,10 @@ def run(ctx):
     n_sites = unit.check_function(ctx, "C15.OFFSET", pp)
     ctx.floor("C15.OFFSET", n_sites, 1, "offset arithmetic in _parse")
 
+    # ---------------------------------------------------------------- C15.ARGS
+    from ..rules_common import check_call_arguments
+    check_call_arguments(ctx, "C15.ARGS", "C15")
+
 
 def _fuzzy_negated(test):
     """True when the branch's TRUE edge is the non-fuzzy one (`not fuzzy`, `not (x or fuzzy)`)."""
